@@ -20,6 +20,9 @@ def gen_args(tier, seed):
 def _harness_args(a, trace, only=None):
     if a.get("scenarios"):
         return ["scenarios", "-out", trace] + (["-only", only] if only else [])
+    if a.get("liveness"):
+        return ["liveness", "-out", trace, "-seed", a["seed"], "-runs", a["runs"], "-prefix", a["prefix"], "-nmax", a["nmax"]] + (
+            ["-only", only] if only is not None else [])
     out = ["cluster", "-out", trace, "-seed", a["seed"], "-runs", a["runs"], "-steps", a["steps"], "-heights", a["heights"],
            "-nmin", a["nmin"], "-nmax", a["nmax"]]
     if only is not None:
@@ -39,6 +42,8 @@ def _runs_index(lines):
 
 
 def describe(e):
+    if e.get("ev") in ("stable", "liveness_verdict"):
+        return json.dumps(e)
     m = e.get("msg", {})
     s = "%s at %s" % (e.get("ev"), e.get("n"))
     if e.get("ev") == "deliver":
@@ -53,7 +58,7 @@ def describe(e):
 
 def classify(tag, e, lines=None, l=None, bad=None):
     """signature of a failing step: what a known finding is matched against"""
-    m = e.get("msg", {})
+    m = e.get("msg", {}) if isinstance(e.get("msg"), dict) else {}
     sig = {"tag": tag, "ev": e.get("ev"), "msg_kind": m.get("k"), "genuine": e.get("tmpl") in ("", "dup", None) and e.get("from") != "byz"}
     if tag == "c01_fork" and lines is not None:
         # was the conflicting block adopted by this node through a standalone PREPREPARE in a view above 0 ?
@@ -111,11 +116,16 @@ def judge(rep, pid, tier, seed, only=None, args=None, what="random adversarial s
     prefix = pid.lower() + "_"
     kinds = collections.Counter()
     for e in lines:
-        if e.get("ev") != "init":
+        if e.get("ev") not in ("init", "stable", "liveness_verdict"):
             kinds[(e["ev"], e.get("msg", {}).get("k"), e.get("tmpl", ""))] += 1
             rep.distinct.add((e["ev"], e.get("msg", {}).get("k"), e.get("tmpl", ""), e["post"]["view"], e["post"]["prepared"], len(e.get("sent", []))))
     rep.extra["event_classes"] = len(kinds)
     rep.extra["commit_callbacks"] = sum(len(e.get("commits", [])) for e in lines if e.get("ev") != "init")
+    verdicts = [e for e in lines if e.get("ev") == "liveness_verdict"]
+    if verdicts:
+        rep.extra["stabilised_runs"] = len(verdicts)
+        rep.extra["commits_of_post_stabilisation_proposals"] = sum(1 for e in verdicts if e["committed"] and not e["pre_gst_proposal"])
+        rep.extra["worst_timeouts_over_bound"] = max([e["timeouts"] / e["bound"] for e in verdicts if e["bound"]] or [0])
     rep.extra["harness"] = out.strip()[:600]
     for e in lines:
         if e.get("ev") == "deliver" and e.get("sent"):
